@@ -13,6 +13,12 @@ RES = {'$S': 0, '$eof': 1, 'error': 2}
 
 def inject(rng, terms, rules, kind):
     terms, rules = list(terms), [list(r) for r in rules]
+    if kind == 0:
+        # not a defect: the cost of a rule without abstract node is ignored, whatever its sign
+        for r in rules:
+            if r[2] is None and rng.random() < 0.6:
+                r[3] = -rng.randint(1, 9)
+        return terms, [tuple(r) for r in rules]
     tn = [t for t, c in terms]
     nts = sorted({r[0] for r in rules})
 
@@ -154,6 +160,9 @@ def run(pid, tier, seed, replay=None):
             continue
         terms, rules = g.terms, g.rules
         kinds = []
+        if rng.random() < 0.15:
+            kinds.append(0)
+            terms, rules = inject(rng, terms, rules, 0)
         for _ in range(rng.choice([0, 1, 1, 1, 2, 3])):
             k = rng.randint(4, 16)
             kinds.append(k)
